@@ -411,6 +411,77 @@ def run_output_units():
     return out
 
 
+def _strip_lines(n):
+    """IR without line numbers (structural comparison)"""
+    if isinstance(n, list):
+        if n and isinstance(n[0], str) and (isinstance(n[-1], int) or n[-1] is None) and n[0] in (
+                "decl", "expr", "if", "for", "while", "dowhile", "ret", "break", "continue", "block", "goto", "label", "switch"):
+            n = n[:-1]
+        return [_strip_lines(x) for x in n]
+    return n
+
+
+def _find_single_step_ifs(stmts, out):
+    for s in stmts:
+        if not isinstance(s, list) or not s:
+            continue
+        if s[0] == "if" and s[1] == ["v", "single_step", "bool"]:
+            out.append(s)
+        for x in s:
+            if isinstance(x, list) and x and isinstance(x[0], list):
+                _find_single_step_ifs(x, out)
+        if s[0] == "switch":
+            for c in s[2]:
+                _find_single_step_ifs(c[2], out)
+
+
+def run_step_units():
+    """step-independence at segment boundaries: when single-stepping finishes the last instruction of a
+    segment, it must do exactly the bookkeeping that run() does after `after_end_of_segment`
+    (pop the segment, advance an enclosing do-loop).  Structural comparison of the two statement lists."""
+    res = {"unit": "ForthMachineOf<int64_t,int32_t>::internal_run/segment-end", "obligations": [], "errors": []}
+    fm = load()
+    ms = fm["methods"].get("internal_run")
+    if not ms or ms[0].get("body") is None:
+        res["errors"].append("internal_run not found")
+        return [res]
+    body = ms[0]["body"]
+    outer = [s for s in body if s[0] == "while"]
+    if not outer:
+        res["errors"].append("outer interpreter loop not found")
+        return [res]
+    ob = outer[0][2]
+    idx = [i for i, s in enumerate(ob) if s[0] == "label"]
+    if not idx:
+        res["errors"].append("label after_end_of_segment not found")
+        return [res]
+    epilogue = _strip_lines(ob[idx[0] + 1:])
+    ifs = []
+    _find_single_step_ifs(body, ifs)
+    if not ifs:
+        res["errors"].append("no single-step return found")
+        return [res]
+    uniq = []
+    for s in ifs:
+        if not any(s is u for u in uniq):
+            uniq.append(s)
+    for n, s in enumerate(uniq):
+        then = s[2]
+        seg = None
+        for t in then:
+            if t[0] == "if" and "is_segment_done" in str(t[1]):
+                seg = t[2]
+        where = "line %s" % s[-1]
+        ok = seg is not None and _strip_lines(seg) == epilogue
+        res["obligations"].append({"id": "%s:F.step_equiv#%d" % (res["unit"], n), "unit": res["unit"], "kind": "F.step_equiv",
+                                   "label": "step", "line": s[-1],
+                                   "desc": "single-step return at %s: finishing a segment does the same bookkeeping as run() after after_end_of_segment" % where,
+                                   "status": "proved" if ok else "refuted", "time": 0.0, "backend": "syntactic",
+                                   "model": None if ok else "statements executed when the segment is done differ from the statements after the label",
+                                   "auto": False})
+    return [res]
+
+
 TRUSTED = [
     "ForthOutputBufferOf::maybe_resize is assumed to satisfy its contract (reserved_ >= requested, old contents copied, buffer possibly reallocated); its body (float growth factor, new[], memcpy) is outside the translator",
     "Forth units: bytecode operands (variable/input/output numbers, jump targets, the depth operand of `exit`, `i/j/k` only inside enough nested do-loops) are well-formed because the compiler produced them; indexes derived from operands (variables_, bytecodes_, current_inputs_/outputs_) are not under contract",
@@ -422,7 +493,7 @@ TRUSTED = [
 
 def engine(pid, tier, seed, known):
     """entry point used by `akv check C19`"""
-    res = run_units() + run_buffer_units() + run_output_units()
+    res = run_units() + run_buffer_units() + run_output_units() + run_step_units()
     out = {"obligations": [], "functions": {}, "errors": [], "notes": [], "bounded": [], "coverage": {}}
     for r in res:
         out["functions"][r["unit"]] = {"obligations": len(r["obligations"]), "exits": r.get("exits")}
